@@ -332,6 +332,8 @@ def userKeySlices (clamp : Bool) (revision keySize : Nat) : Out Unit :=
 def keySchedule (clamp : Bool) (revision keyBits : Nat) (userOk : Bool) : Out Unit :=
   let keySize := keyBits / 8
   if keySize = 0 then .err else
+  -- `MAX_KEY_SIZE = 32`: refused before the buffer of `max key_size 16` bytes is allocated
+  if keySize > 32 then .err else
   seqU (userKeySlices clamp revision keySize) <|
   -- `&key[..min(key_size, 16)]` of a key of `max key_size 16` bytes, as an RC4 key
   seqU (sliceTo (min keySize 16) (max keySize 16)) <|
@@ -352,5 +354,11 @@ def objectKeySlices (aes : Bool) (keySize keyLen : Nat) : Out Unit :=
   seqU (sliceTo n keyLen) <|
   seqU (sliceTo (n + (if aes then 9 else 5)) (if aes then 41 else 21)) <|
   if aes then .ok () else rc4Key (min (n + 5) 16)
+
+/-- bytes `from_password` allocates for the key of revisions 2–4 (`vec![0u8; key_size.max(16)]`, twice on
+    the owner path); `bounded = false` is the code that did not refuse long keys -/
+def keyBufferBytes (bounded : Bool) (keyBits : Nat) : Nat :=
+  let keySize := keyBits / 8
+  if keySize = 0 then 0 else if bounded && decide (keySize > 32) then 0 else 2 * max keySize 16
 
 end Numeric
